@@ -109,7 +109,11 @@ def gen_step(rng, sh, ops_enabled):
         k = rng.randint(0, len(sh.inputs))
         ins = rng.sample(sh.inputs, k) if sh.inputs else []
         if invalid:
-            ins = ins + ['zz_missing']
+            # a label that does not exist, or an existing one listed once too often
+            if ins and rng.random() < 0.5:
+                ins = ins + [rng.choice(ins)]
+            else:
+                ins = ins + ['zz_missing']
         else:
             sh.inputs = ins + [x for x in sh.inputs if x not in ins]
         return ['order_inputs', ins]
@@ -119,7 +123,12 @@ def gen_step(rng, sh, ops_enabled):
         for _ in range(rng.randint(0, len(pool))):
             outs.append(pool.pop(rng.randrange(len(pool))))
         if invalid:
-            outs = outs + ['zz_missing']
+            # a label that is no output, or an output listed more often than it occurs
+            if sh.outputs and rng.random() < 0.5:
+                x = rng.choice(sh.outputs)
+                outs = [o for o in outs if o != x] + [x] * (list(sh.outputs).count(x) + 1)
+            else:
+                outs = outs + ['zz_missing']
         else:
             sh.outputs = outs + pool
         return ['order_outputs', outs]
